@@ -65,9 +65,46 @@ func (b *synB) family(depth int) gr.Sym {
 	fam := b.force
 	b.force = 0
 	if fam == 0 {
-		fam = rapid.IntRange(0, 14).Draw(b.t, "family")
+		fam = rapid.IntRange(0, 15).Draw(b.t, "family")
 	}
 	switch fam {
+	case 15: // a nonterminal that is nullable only indirectly (no empty alternative of
+		// its own: every symbol of one of its bodies is nullable), used behind a
+		// nonterminal and in front of a terminal
+		if b.maxNT-b.nNT < 3 {
+			alts = []gr.Alt_{body(elem(), b.term())}
+			break
+		}
+		hn, hpi := b.newNT()
+		b.prods[hpi].Alts = []gr.Alt_{body(b.term())}
+		if rapid.Bool().Draw(b.t, "headTwo") {
+			b.prods[hpi].Alts = append(b.prods[hpi].Alts, body(b.term(), b.term()))
+		}
+		x := nt(hn)
+		tn, tpi := b.newNT()
+		opt := func() gr.Sym {
+			on, opi := b.newNT()
+			if rapid.Bool().Draw(b.t, "optEmptyFirst") {
+				b.prods[opi].Alts = []gr.Alt_{{Empty: true}, body(b.term())}
+			} else {
+				b.prods[opi].Alts = []gr.Alt_{body(b.term()), {Empty: true}}
+			}
+			return nt(on)
+		}
+		o1 := opt()
+		o2 := o1
+		if b.nNT < b.maxNT && rapid.Bool().Draw(b.t, "secondOpt") {
+			o2 = opt()
+		}
+		switch rapid.IntRange(0, 2).Draw(b.t, "indirectShape") {
+		case 0:
+			b.prods[tpi].Alts = []gr.Alt_{body(o1, o2)}
+		case 1:
+			b.prods[tpi].Alts = []gr.Alt_{body(o1)}
+		default:
+			b.prods[tpi].Alts = []gr.Alt_{body(b.term(), b.term()), body(o1, o2)}
+		}
+		alts = []gr.Alt_{body(x, nt(tn), b.term())}
 	case 14: // a chain of nonterminals declared top-down, some levels of which also
 		// start with a terminal directly: FIRST sets that take several rounds to
 		// settle and grow by sets that are partly known already; the chain follows
@@ -538,6 +575,12 @@ func SynGrammar(o SynOpts) *rapid.Generator[*gr.Grammar] {
 				np = append(np, b.prods[at:]...)
 				b.prods = np
 			}
+		}
+		if len(b.prods) >= 3 && rapid.IntRange(0, 3).Draw(t, "shuffleRules") == 0 {
+			// rules in any order behind the first one (the start symbol): a
+			// nonterminal may be defined before the first rule that refers to it
+			rest := rapid.Permutation(b.prods[1:]).Draw(t, "ruleOrder")
+			b.prods = append([]gr.Prod{b.prods[0]}, rest...)
 		}
 		g := &gr.Grammar{Prods: b.prods}
 		if o.Actions {
